@@ -210,6 +210,9 @@ class Ref:
         self.abandoned_reads = set()  # reads made inside coalesce members / dispatches that then failed
         self.optional_absent = set()
         self.before = set()
+        self.structural = set()
+        self.struct_failed = False
+        self._struct = 0
         self._trial = 0
         self._trial_marks = []
         self._defs = {}
@@ -224,6 +227,9 @@ class Ref:
         self.body_events = []
         self.effect_events = []
         self.before = set()  # ((kind, name) produced earlier, (kind, name) of its consumer)
+        self.structural = set()  # (kind, name) events that happened while choosing a branch
+        self.struct_failed = False  # a branch could not be chosen (dispatch / bind source / iterable failed)
+        self._struct = 0
         self._trial = 0
         self._trial_marks = []
         try:
@@ -243,6 +249,23 @@ class Ref:
     # -- helpers ---------------------------------------------------------
     def _event(self, kind, name):
         self.log.append((kind, name, self._trial > 0))
+        if self._struct > 0:
+            self.structural.add((kind, name))
+
+    def _nobranch(self):
+        self.struct_failed = True  # no branch applies: "a branch cannot be chosen"
+        return RefFail("nobranch", None)
+
+    def _structural(self, thunk):
+        """Evaluate something whose value is needed to choose a branch."""
+        self._struct += 1
+        try:
+            return thunk()
+        except RefFail:
+            self.struct_failed = True
+            raise
+        finally:
+            self._struct -= 1
 
     def _call(self, kind, name, f, args, kw=None):
         self._event(kind, name)
@@ -396,7 +419,7 @@ class Ref:
         return f(v)
 
     def ev_bind(self, t, o):
-        v = self.ev(t[1], o)
+        v = self._structural(lambda: self.ev(t[1], o))
         for k, x in t[2]:
             if freeze(k) == freeze(v):
                 return self.ev(x, o)
@@ -409,9 +432,9 @@ class Ref:
         self._trial_enter()
         try:
             if isinstance(d, tuple) and d[0] == "optkey":
-                k = self._option(d[1], None, o)
+                k = self._structural(lambda: self._option(d[1], None, o))
             else:
-                k = self.ev(d, o)
+                k = self._structural(lambda: self.ev(d, o))
         except RefFail:
             self._trial_exit(start, False)
             if dflt is None:
@@ -424,7 +447,7 @@ class Ref:
         if k in lut:
             return self.ev(lut[k], o)
         if dflt is None:
-            raise RefFail("nobranch", None)
+            raise self._nobranch()
         return self.ev(dflt, o)
 
     def ev_switch(self, t, o):
@@ -433,13 +456,13 @@ class Ref:
     ev_overloaded = ev_switch
 
     def ev_case(self, t, o):
-        v = self.ev(t[1], o)
+        v = self._structural(lambda: self.ev(t[1], o))
         for c, x in t[2]:
-            p = self.ev(c, o)
-            if p(v):
+            p = self._structural(lambda: self.ev(c, o))
+            if self._structural(lambda: p(v)):
                 return self.ev(x, o)
         if t[3] is None:
-            raise RefFail("nobranch", None)
+            raise self._nobranch()
         return self.ev(t[3], o)
 
     def ev_coalesce(self, t, o):
@@ -481,10 +504,11 @@ class Ref:
         keys = [k for k, _ in t[2]]
         lists = []
         for _, x in t[2]:
-            v = self.ev(x, o)
+            v = self._structural(lambda: self.ev(x, o))
             try:
-                lists.append(list(v))
+                lists.append(self._structural(lambda: list(v)))
             except TypeError:
+                self.struct_failed = True
                 raise RefFail("type", None)
         combos = list(itertools.product(*lists))
 
@@ -583,7 +607,7 @@ class Ref:
             v = self._switch_ds(p, body, o2)
         else:
             if p["abstract"]:
-                raise RefFail("nobranch", None)
+                raise self._nobranch()
             v = body()
         if p["callback"] is not None and keep_callback:
             cb = self.ev(p["callback"], o2)
@@ -625,9 +649,9 @@ class Ref:
         self._trial_enter()
         try:
             if d[0] == "optkey":
-                k = self._option(d[1], None, o)
+                k = self._structural(lambda: self._option(d[1], None, o))
             else:
-                k = self.ev(d, o)
+                k = self._structural(lambda: self.ev(d, o))
         except RefFail:
             self._trial_exit(start, False)
             if p["abstract"]:
@@ -640,7 +664,7 @@ class Ref:
         if k in lut:
             return self.ev(lut[k], o)
         if p["abstract"]:
-            raise RefFail("nobranch", None)
+            raise self._nobranch()
         return body()
 
     def ev_ds(self, t, o):
